@@ -258,7 +258,10 @@ PROPS["C26"] = {
         {
             "mounts": [("c26_beans.rs", "common/beans.rs")],
             "atomics": ["common/beans.rs"],
-            "harnesses": ["c26_two_first_lookups", "c26_sequential_lookups"],
+            "harnesses": ["c26_first_lookups_preempt_at_0", "c26_first_lookups_preempt_at_1", "c26_first_lookups_preempt_at_2",
+                          "c26_first_lookups_preempt_at_3", "c26_first_lookups_preempt_at_4", "c26_first_lookups_preempt_at_5",
+                          "c26_first_lookups_preempt_at_6", "c26_first_lookups_preempt_at_7", "c26_first_lookups_one_after_the_other",
+                          "c26_sequential_lookups", "c26_names_that_differ_give_different_instances"],
             "timeout": 600,
         },
     ],
@@ -278,6 +281,114 @@ PROPS["C06"] = {
     ],
 }
 
+_C02_SUBS = [
+    ("co_pool/mod.rs", "use std::sync::{Arc, Condvar, Mutex};", "use std::sync::Arc;\nuse crate::verif_sync::{Condvar, Mutex};", 1),
+    ("common/mod.rs", "mutex: std::sync::Mutex<bool>,", "mutex: crate::verif_sync::Mutex<bool>,", 1),
+    ("common/mod.rs", "condvar: std::sync::Condvar,", "condvar: crate::verif_sync::Condvar,", 1),
+]
+PROPS["C02"] = {
+    "functions": ["co_pool::CoroutinePool::{new,submit_task,submit_raw_task,try_run,wait_task_result,try_take_task_result,notify}",
+                  "co_pool::task::Task::{new,run}", "common::CondvarBlocker::notify",
+                  "ordered_work_steal::OrderedLocalQueue::{push_with_priority,pop} (task queue)"],
+    "bounds": "1-2 tasks with symbolic results and priorities; 1 waiter and 1 completer thread, the completer's whole step (pop, run, "
+              "store result, notify) placed at each of the scheduling points of wait_task_result (case split, completeness asserted) "
+              "or while the waiter is blocked; 2 pools sharing the task queue (local queues of capacity 2).",
+    "outside": "panicking tasks (E4: no unwinding under Kani), the coroutine-caller branch of wait_task_result, spurious wake-ups, "
+               "more than one pre-emption, real Condvar/futex behaviour, JoinHandle/EventLoops wrappers (they forward to wait_task_result).",
+    "assumptions": ["E5: Mutex/Condvar replaced by the verif_sync model (blocking wait = the other thread runs to completion; records full timeouts)",
+                    "dashmap / st3 / crossbeam-skiplist / crossbeam-deque / rand model crates; queue beans pre-created with 2 local queues of capacity 2",
+                    "common::now stubbed; alloc::fmt::format stubbed"],
+    "groups": [
+        {"mounts": [("c02_join.rs", "co_pool/mod.rs")], "subs": _C02_SUBS,
+         "harnesses": ["c02_join_returns_own_result", "c02_completion_at_point_0", "c02_completion_at_point_1", "c02_completion_at_point_2",
+                       "c02_completion_at_point_3", "c02_completion_at_point_4", "c02_completion_at_point_5", "c02_completion_at_point_6",
+                       "c02_completion_at_point_7", "c02_completion_while_blocked",
+                       "c02_result_reaches_the_waiter_whichever_pool_ran_the_task"],
+         "timeout": 1200, "jobs": 4, "mem_gb": 14},
+    ],
+}
+
+PROPS["C12"] = {
+    "functions": ["co_pool::state::{stopping,stopped,change_state}", "CoroutinePool::{submit_task,do_clean,wait_task_result,notify,size}"],
+    "bounds": "arbitrary pool state, 3 symbolic lifecycle requests; one submission from an arbitrary state; one waiter (any non-zero task id) "
+              "blocked while the pool is cleaned up.",
+    "outside": "'every task accepted earlier runs before stop reports success' and the event-loop drain (need the scheduling loop with real worker "
+               "coroutines); concurrent submit/stop interleavings beyond the one block point.",
+    "assumptions": ["E5 verif_sync Mutex/Condvar model", "queue beans pre-created small; model crates"],
+    "groups": [
+        {"mounts": [("c02_join.rs", "co_pool/mod.rs")], "subs": _C02_SUBS,
+         "harnesses": ["c12_lifecycle_only_moves_forward", "c12_stop_rejects_new_work", "c12_stop_settles_waiters"],
+         "timeout": 1200, "jobs": 3, "mem_gb": 14},
+    ],
+}
+PROPS["C11"] = {
+    "functions": ["co_pool::creator::CoroutineCreator::on_state_changed", "CoroutinePool::{submit_co,get_running_size,set_max_size}", "Scheduler::submit_co"],
+    "bounds": "one listener notification for every (old, new) coroutine state pair and every running count; one submit_co for every running count and "
+              "maximum size (running <= max).",
+    "outside": "that every way a worker coroutine leaves scheduling notifies the listener (a coroutine dropped by the scheduler's pending-cancel branch "
+               "does not - shown natively only, see DESIGN 8.2), keep-alive recycling, stop latency: they need Scheduler::do_schedule with real worker "
+               "bodies (std HashMap/BinaryHeap + stack switching), not encodable here.",
+    "assumptions": ["E5 verif_sync model", "queue beans pre-created small; model crates", "no task is queued while the listener runs (try_grow returns early)"],
+    "groups": [
+        {"mounts": [("c02_join.rs", "co_pool/mod.rs")], "subs": _C02_SUBS,
+         "harnesses": ["c11_listener_counts_terminated_workers", "c11_submit_co_respects_max_size"],
+         "timeout": 1200, "jobs": 2, "mem_gb": 14},
+    ],
+}
+PROPS["C13"] = {
+    "functions": ["CoroutinePool::{try_cancel_task,try_run,submit_task,wait_task_result}", "CANCEL_TASKS / RUNNING_TASKS bookkeeping"],
+    "bounds": "2 queued tasks with symbolic priorities/values, a symbolic one of them cancelled before it starts; 1 waiter blocked while the worker meets "
+              "the cancelled task.",
+    "outside": "cancelling a RUNNING or SUSPENDED task (signal delivery to the scheduling thread, Scheduler::try_cancel_coroutine - needs real "
+               "coroutine bodies; the cross-coroutine leak of a cancel request is decided under C09).",
+    "assumptions": ["E5 verif_sync Mutex/Condvar model", "queue beans pre-created small; model crates"],
+    "groups": [
+        {"mounts": [("c02_join.rs", "co_pool/mod.rs")], "subs": _C02_SUBS,
+         "harnesses": ["c13_cancel_before_start_affects_only_that_task", "c13_waiter_of_a_cancelled_task_is_not_left_blocked"],
+         "timeout": 1200, "jobs": 2, "mem_gb": 14},
+    ],
+}
+
+PROPS["C04"] = {
+    "unwind_is_property": True,
+    "functions": ["ordered_work_steal::OrderedLocalQueue::{push_with_priority,push_to_global,pop,pop_local,local_len,can_steal,max_steal}",
+                  "ordered_work_steal::OrderedWorkStealQueue::{push_with_priority,pop}"],
+    "bounds": "histories push(l0)^a pop(l1) push(l0)^b pop(l1) push(l0)^c over 2 local handles of capacity 2, exhaustively case-split over (a,b,c) in {0,1,2}^3 "
+              "(6 instances in the quick tier, all 27 in the thorough tier), each with a symbolic i64 priority and a symbolic steal start index "
+              "(pop(l1) on an empty l1 steals from l0); unwind 6 with unwinding assertions as the property.",
+    "outside": "capacities > 2, more than 2 local queues, several priorities at once, real concurrency (C03), task/coroutine submission wrappers "
+               "(they are one push plus a notify).",
+    "assumptions": ["st3 / crossbeam-skiplist / crossbeam-deque / rand model crates (sequential contracts; the steal start index is symbolic)"],
+    "groups": [
+        {"mounts": [("c04_ows.rs", "common/ordered_work_steal.rs")],
+         "harnesses": ['c04_ows_history_122_terminates', 'c04_ows_history_200_terminates', 'c04_ows_history_211_terminates', 'c04_ows_history_212_terminates', 'c04_ows_history_221_terminates', 'c04_ows_history_222_terminates'],
+         "thorough_harnesses": ['c04_ows_history_000_terminates', 'c04_ows_history_001_terminates', 'c04_ows_history_002_terminates', 'c04_ows_history_010_terminates', 'c04_ows_history_011_terminates', 'c04_ows_history_012_terminates', 'c04_ows_history_020_terminates', 'c04_ows_history_021_terminates', 'c04_ows_history_022_terminates', 'c04_ows_history_100_terminates', 'c04_ows_history_101_terminates', 'c04_ows_history_102_terminates', 'c04_ows_history_110_terminates', 'c04_ows_history_111_terminates', 'c04_ows_history_112_terminates', 'c04_ows_history_120_terminates', 'c04_ows_history_121_terminates', 'c04_ows_history_201_terminates', 'c04_ows_history_202_terminates', 'c04_ows_history_210_terminates', 'c04_ows_history_220_terminates'],
+         "timeout": 900, "timeout_thorough": 1800, "jobs": 6, "mem_gb": 12},
+    ],
+}
+
+PROPS["C05"] = {
+    "functions": ["ordered_work_steal::OrderedWorkStealQueue::{push_with_priority,pop,len}",
+                  "ordered_work_steal::OrderedLocalQueue::{push_with_priority,pop,pop_local,tick}"],
+    "bounds": "histories push^a pop^b push^c pop^d drain with symbolic counts, 2 <= a + c <= 3 items, every priority a symbolic i64 "
+              "(extremes, ties, negatives), on (i) the shared queue alone and (ii) one local handle of capacity 3 with the shared queue empty "
+              "(never more items queued than the local capacity); unwind 5.",
+    "outside": "more than 3 items / 3 distinct priorities (skip-list model bound); overflow to the shared queue and stolen items (reordering there is "
+               "documented behaviour); the sentence about a single pool worker running tasks in that order (needs the pool pipeline).",
+    "assumptions": ["crossbeam-skiplist / crossbeam-deque / st3 / rand model crates (sequential contracts)"],
+    "groups": [
+        {"mounts": [("c05_order.rs", "common/ordered_work_steal.rs")],
+         "harnesses": ["c05_shared_queue_priority_then_fifo", "c05_local_queue_priority_then_fifo"], "timeout": 1200, "mem_gb": 30},
+    ],
+}
+
+PROPS["C06"]["groups"].append(
+    {"mounts": [("c04_ows.rs", "common/ordered_work_steal.rs")],
+     "harnesses": ['c06_ows_history_120_idle_victim_finds_work', 'c06_ows_history_200_idle_victim_finds_work', 'c06_ows_history_210_idle_victim_finds_work', 'c06_ows_history_211_idle_victim_finds_work', 'c06_ows_history_220_idle_victim_finds_work', 'c06_ows_history_221_idle_victim_finds_work'],
+     "thorough_harnesses": ['c06_ows_history_000_idle_victim_finds_work', 'c06_ows_history_001_idle_victim_finds_work', 'c06_ows_history_002_idle_victim_finds_work', 'c06_ows_history_010_idle_victim_finds_work', 'c06_ows_history_011_idle_victim_finds_work', 'c06_ows_history_012_idle_victim_finds_work', 'c06_ows_history_020_idle_victim_finds_work', 'c06_ows_history_021_idle_victim_finds_work', 'c06_ows_history_022_idle_victim_finds_work', 'c06_ows_history_100_idle_victim_finds_work', 'c06_ows_history_101_idle_victim_finds_work', 'c06_ows_history_102_idle_victim_finds_work', 'c06_ows_history_110_idle_victim_finds_work', 'c06_ows_history_111_idle_victim_finds_work', 'c06_ows_history_112_idle_victim_finds_work', 'c06_ows_history_121_idle_victim_finds_work', 'c06_ows_history_122_idle_victim_finds_work', 'c06_ows_history_201_idle_victim_finds_work', 'c06_ows_history_202_idle_victim_finds_work', 'c06_ows_history_212_idle_victim_finds_work', 'c06_ows_history_222_idle_victim_finds_work'],
+     "timeout": 900, "timeout_thorough": 1800, "jobs": 6, "mem_gb": 12,
+     "bounds": "ordered queue: push(l0)^a pop(l1) push(l0)^b pop(l1) push(l0)^c pop(l0)^d pop(l0), 2 local handles of capacity 2, counts <= 2, one symbolic priority"})
+
 PROPS["C03"] = {
     "functions": ["work_steal::WorkStealQueue::{push,pop,len}", "ordered_work_steal::OrderedWorkStealQueue::{push_with_priority,pop,len}"],
     "bounds": "2 threads x 1 operation each (all pairs of push/pop) on a shared queue pre-filled with 0..=2 items, thread B's whole "
@@ -290,7 +401,7 @@ PROPS["C03"] = {
         {"mounts": [("c03_ws_conc.rs", "common/work_steal.rs")], "atomics": ["common/work_steal.rs"],
          "harnesses": ["c03_ws_global_race"], "timeout": 900},
         {"mounts": [("c03_ows_conc.rs", "common/ordered_work_steal.rs")], "atomics": ["common/ordered_work_steal.rs"],
-         "harnesses": ["c03_ows_global_race"], "timeout": 900},
+         "harnesses": ["c03_ows_race_push_push", "c03_ows_race_push_pop", "c03_ows_race_pop_push", "c03_ows_race_pop_pop"], "timeout": 900, "jobs": 4},
     ],
 }
 
@@ -311,7 +422,7 @@ PROPS["C07"] = {
             "mounts": [("c07_state.rs", "coroutine/state.rs")],
             "harnesses": ["c07_step_ready", "c07_step_running", "c07_step_suspend", "c07_step_syscall", "c07_step_cancel",
                           "c07_step_complete", "c07_step_error"],
-            "timeout": 600,
+            "timeout": 900, "jobs": 4, "mem_gb": 14,
         },
     ],
 }
@@ -327,9 +438,33 @@ PROPS["C09"] = {
     "groups": [
         {
             "mounts": [("c09_requests.rs", "coroutine/suspender.rs")],
-            "harnesses": ["c09_running_state_requests", "c09_syscall_state_requests"],
-            "timeout": 900,
+            "harnesses": ["c09_step_plain_suspend", "c09_step_delay", "c09_step_cancel", "c09_step_delay_in_syscall_state",
+                          "c09_step_cancel_in_syscall_state"],
+            "thorough_harnesses": ["c09_running_state_requests", "c09_syscall_state_requests"],
+            "timeout": 900, "timeout_thorough": 3000, "jobs": 5,
         },
+    ],
+}
+PROPS["C08"] = {
+    "functions": ["Coroutine::{new,resume_with,raw_resume}", "Suspender::suspend_with", "state::{running,suspend,complete} + listener broadcast"],
+    "bounds": "one coroutine Coroutine<u16, u8, Option<usize>>, up to 2 yields then return (the returning step symbolic), every resume argument, yielded "
+              "value and the return value symbolic; one more resume after completion.",
+    "outside": "the panic half of the property (a panic becomes an Error without unwinding into the caller: Kani has no unwinding, E4); more than 2 yields; "
+               "the transfer inside corosensei itself (replaced by the model: no stack switch).",
+    "assumptions": _CO_ASSUME,
+    "groups": [
+        {"mounts": [("c09_requests.rs", "coroutine/suspender.rs")], "harnesses": ["c08_values_cross_the_boundary"], "timeout": 900},
+    ],
+}
+PROPS["C23"] = {
+    "functions": ["Coroutine::maybe_grow_with (coroutine path and plain-thread path)", "Coroutine::{remaining_stack,stack_infos,stack_infos_mut}", "StackInfo::from"],
+    "bounds": "every red zone, every stack size <= 16 MiB, every stack pointer position inside the current segment, segment allocation succeeding or "
+              "failing; nesting depth 1 (coroutine) / 2 (thread).",
+    "outside": "restoration after UNWINDING out of the callback (Kani has no unwinding; this is where the guarded coroutine path and the unguarded thread "
+               "path differ) - hence 'deep recursion keeps working after a caught panic' is not decided; real stacks and psm; the hook/open-coroutine wrappers.",
+    "assumptions": _CO_ASSUME + ["psm::stack_pointer is set by the harness; DefaultStack::new hands out fresh disjoint segments (corosensei model)"],
+    "groups": [
+        {"mounts": [("c23_stack.rs", "coroutine/korosensei.rs")], "harnesses": ["c23_grow_in_coroutine", "c23_grow_in_thread"], "timeout": 900},
     ],
 }
 PROPS["C25"]["groups"].append({
@@ -349,3 +484,16 @@ PROPS["C07"]["groups"].append({
 # repository and are quiet. The other entries above are development harnesses (runnable through bin/check,
 # not claimed; reasons in not_applicable.py).
 CLAIMED = ["C14", "C16", "C17", "C18", "C19", "C20", "C25", "C28"]
+
+
+# Coroutine / pool harness groups: listener calls are `dyn Listener`; without vtable restriction CBMC takes the coroutine's own
+# broadcasting `impl Listener for Coroutine` as a possible target of every listener call (nobody ever registers a coroutine as
+# a listener), which makes every state change recurse to the unwind depth: 10.2 M program steps for two transitions instead of
+# 0.5 M with `-Z restrict-vtable` (measured). The recording listener's counters assert that the real target IS still called.
+# The selector / event-loop groups get it for the recursive drop glue of io::Error (Box<dyn Error> sources).
+for _pid, _cfg in PROPS.items():
+    for _g in _cfg["groups"]:
+        if any(m[0] in ("c07_state.rs", "c09_requests.rs", "c23_stack.rs", "c02_join.rs", "c20_selector.rs", "c14_wait.rs") for m in _g["mounts"]):
+            _g.setdefault("kani_args", [])
+            if "restrict-vtable" not in _g["kani_args"]:
+                _g["kani_args"] += ["-Z", "restrict-vtable"]
